@@ -3,6 +3,7 @@ import Driver.Core
 import MlaModel.Repair
 import MlaModel.Spec
 import MlaModel.Encrypt
+import MlaModel.ReaderS
 import MlaModel.Crypto.Gcm
 import MlaModel.Crypto.Sha2
 open Lean
@@ -105,5 +106,42 @@ def cmdEncOpen (j : Json) : Json :=
   let e := getHex j "stream"
   let C := primsOf j P e.length
   exceptBytesJson (openAll P C (e.length / P.chunk + 2) 0 e)
+
+end Driver
+
+namespace Driver
+open MlaModel Lean
+
+def ropOfJson (x : Json) : ROp :=
+  match getStr x "op" with
+  | "list" => .list
+  | "get" => .getFile (getHex x "name")
+  | "read" => .read (getNat x "n")
+  | "drop" => .drop
+  | "hash" => .getHash (getHex x "name")
+  | _ => .getSize (getHex x "name")
+
+def routJson : ROut → Json
+  | .names l => Json.mkObj [("names", Json.arr (l.map jhex).toArray)]
+  | .opened n => Json.mkObj [("opened", jnat n)]
+  | .data b => Json.mkObj [("data", jhex b)]
+  | .hash h => Json.mkObj [("hash", jhex h)]
+  | .size n => Json.mkObj [("size", jnat n)]
+  | .none_ => Json.str "none"
+  | .noHandle => Json.str "nohandle"
+  | .dropped => Json.str "dropped"
+  | .err e => errJson e
+
+/-- `reader.history`: plaintext stream + operation history → per-op outputs (reader over `Cur`) -/
+def cmdReaderHistory (j : Json) : Json :=
+  let P := paramsOf j
+  let s := getHex j "stream"
+  match parseFooter utf8 s with
+  | .error e => errJson e
+  | .ok ix =>
+    let a0 : ArS Cur := ⟨⟨s, 0⟩, ix, none⟩
+    let h := (getArr j "history").toList.map ropOfJson
+    let (_, outs) := ArS.run P utf8 a0 h
+    Json.mkObj [("outs", Json.arr (outs.map routJson).toArray)]
 
 end Driver
